@@ -58,6 +58,10 @@ func insVals(ins []in1) [][]byte {
 
 // ctorPrim: retention test of a primitive constructor, then the operations of the primitive.
 func (e *engine) ctorPrim(c ctor, seed uint64) {
+	e.safe(c.api, func() { e.ctorPrim1(c, seed) })
+}
+
+func (e *engine) ctorPrim1(c ctor, seed uint64) {
 	var q any
 	var err error
 	if pan := hlib.Recover(func() {
